@@ -342,6 +342,11 @@ def after_twin_cases(tier):
         ([("string", "a"), ("string", "x__y")], [("string", "astringx__y")]),
         ([("bytes", "import"), ("string", "os")], [("string", "importbytesos")]),
         ([("string", "a"), ("varint", "b")], [("string", "a"), ("varint", "b"), ("", ""), ("", "")]),
+        # two VALID definitions that share an identifier: the second is accepted, and it is the second one
+        ([("string", "a"), ("varint", "b")], [("varint", "astringb")]),
+        ([("wstring", "x")], [("string", "xw")]),
+        ([("stringlist", "a"), ("string", "b")], [("string", "a"), ("string", "listb")]),
+        ([("string", "a"), ("string", "listb")], [("stringlist", "a"), ("string", "b")]),
     ]
     pairs = [p for p in pairs if p[1]]
     cases = []
@@ -350,6 +355,79 @@ def after_twin_cases(tier):
             for ch in ("stream-after-twin", "json-after-twin"):
                 cases.append({"name": nm, "fields": hostile, "channel": ch, "role": "after-colliding-twin", "twin": twin})
     return cases
+
+
+BYTES_RAW = [b"name", b"t/ok", b"string", b"varint[]", b"na\xffme", b"\xffname", b"name\xff", b"t/\xfeok", b"str\xffing",
+             b"string\xff", b"\xffstring", b"\xc3(", b"a\x80b", b"na\xc3me", b"a\xc0\xafb", b"a\xed\xa0\x80b", b"\xef\xbb\xbfname",
+             b"\xef\xbb\xbfstring", b"na\x00me", "n\u00e4me".encode(), "str\u0131ng".encode(), b"uint16\xff", b"net.ipaddress\x80",
+             b"t\xff/ok", b"\xfft/ok", b"t/ok\xfe", b"varint\xff[]", b"varint[]\xff", b"_\xffx", b"\xff_x", b"\xff", b"\xfe\xff"]
+
+
+def bytes_name_cases(tier):
+    return [{"raw": raw, "role": role, "channel": ch} for raw in BYTES_RAW for role in ("type-name", "field-name", "field-type")
+            for ch in ("constructor", "stream")]
+
+
+def check_bytes_definition(case, ctx):
+    """Names and type names may arrive as BYTES (the constructor converts them; old streams carry msgpack bin values).
+    What is judged is the text those bytes stand for (UTF-8, undecodable bytes kept as they are): bytes that are not a
+    valid name must not become one on the way in - by dropping, replacing or guessing."""
+    from flow.record import RecordDescriptor, RecordStreamReader
+
+    raw, role, channel = case["raw"], case["role"], case["channel"]
+    dec = raw.decode("utf-8", "surrogateescape")
+    name, ftype, fname = "t/ok", "string", "ok"
+    rname, rtype, rfname = name, ftype, fname
+    if role == "type-name":
+        name, rname = dec, raw
+    elif role == "field-name":
+        fname, rfname = dec, raw
+    else:
+        ftype, rtype = dec, raw
+    defn = (name, ((ftype, fname),))
+    valid = ref_valid(defn)
+    ctx.nontriv()
+    ctx.cls("bytes:" + role, "bytes-channel:" + channel, "bytes-grammar:" + ("inside" if valid else "outside"))
+    import flow.record.base as _base
+
+    _base._generate_record_class.cache_clear()
+    accepted = []
+    if channel == "constructor":
+        res = impl(lambda: RecordDescriptor(rname, [(rtype, rfname)]))
+        if res.ok:
+            accepted.append(res.value)
+    else:
+        # the record frame has to name the type the way the reader understood it: try the faithful reading and the
+        # readings a lossy conversion would give (undecodable bytes dropped / replaced)
+        seen = set()
+        for how in ("surrogateescape", "ignore", "replace"):
+            alt = raw.decode("utf-8", how)
+            a_name, a_type, a_fname = (alt if role == "type-name" else "t/ok"), (alt if role == "field-type" else "string"), \
+                (alt if role == "field-name" else "ok")
+            if (a_name, a_type, a_fname) in seen:
+                continue
+            seen.add((a_name, a_type, a_fname))
+            w = refcodec.Widths()
+            data = refcodec.HEADER_FRAME + refcodec.frame(refcodec.pack(refcodec.ext14(refcodec.T_DESC, [rname, [[rtype, rfname]]], w), w))
+            try:
+                ident = [a_name, refcodec.descriptor_hash(a_name, [(a_type, a_fname)])]
+                data += refcodec.frame(refcodec.pack(refcodec.ext14(refcodec.T_RECORD, [ident, [None, None, None, None, 1]], w), w))
+            except UnicodeEncodeError:
+                continue
+            res = impl(lambda: list(RecordStreamReader(io.BytesIO(data))))
+            if res.ok and len(res.value) == 1:
+                accepted.append(res.value[0]._desc)
+    where = "%s %s %r" % (channel, role, raw)
+    for desc in accepted:
+        got = (desc.name, tuple(tuple(f) for f in desc.get_field_tuples()))
+        if not valid:
+            raise Violation("bytes/%s/invalid-accepted" % channel, "%s: these bytes are not a valid %s, but a record type %r came "
+                            "out of them" % (where, role, got), detail=role)
+        if got != defn:
+            raise Violation("bytes/%s/accepted-as-something-else" % channel, "%s: accepted as %r, the bytes say %r"
+                            % (where, got, defn), detail=role)
+    if valid and not accepted:
+        ctx.cls("bytes:valid-but-refused")
 
 
 def deliver(channel, defn, tmp):
@@ -451,6 +529,20 @@ def check_definition(case, ctx):
         raise Violation("accepted/slots", "%s: __slots__ %r, expected %r" % (where, slots, declared + RESERVED))
     if tuple(tuple(f) for f in desc.get_field_tuples()) != defn[1] or desc.name != defn[0]:
         raise Violation("accepted/descriptor", "%s: descriptor is (%r, %r)" % (where, desc.name, desc.get_field_tuples()))
+    # every view the descriptor offers of its fields says the same: the declared fields, then the reserved ones
+    views = impl(lambda: {
+        "fields": tuple((f.typename, f.name) for f in desc.fields.values()),
+        "get_all_fields": tuple((f.typename, f.name) for f in desc.get_all_fields().values()),
+        "getfields": tuple((f.typename, f.name) for t in dict.fromkeys(t for t, _ in defn[1]) for f in desc.getfields(t)),
+    })
+    if not views.ok:
+        raise Violation("accepted/field-views-raised", "%s: %r" % (where, views), detail=views.type)
+    exp_all = defn[1] + (("string", "_source"), ("string", "_classification"), ("datetime", "_generated"), ("varint", "_version"))
+    exp_by_type = tuple((t, n) for tt in dict.fromkeys(t for t, _ in defn[1]) for t, n in defn[1] if t == tt)
+    for vname, exp in (("fields", defn[1]), ("get_all_fields", exp_all), ("getfields", exp_by_type)):
+        if views.value[vname] != exp:
+            raise Violation("accepted/field-view", "%s: %s reports %r, declared %r" % (where, vname, views.value[vname], exp),
+                            detail=vname)
     inst = impl(lambda: desc.recordType())
     if not inst.ok:
         raise Violation("accepted/cannot-instantiate", "%s: record cannot be instantiated: %r" % (where, inst),
@@ -760,5 +852,6 @@ def parts(tier):
         Part("grouped-record-names", check_definition, cases=grouped_name_cases, exhaustive=True),
         Part("hostile-with-keyword-fields", check_definition, cases=hostile_with_keyword_cases, exhaustive=True),
         Part("after-colliding-twin", check_definition, cases=after_twin_cases, exhaustive=True),
+        Part("bytes-names", check_bytes_definition, cases=bytes_name_cases, exhaustive=True),
         Part("generated", check_definition, strategy=generated_case(), examples=(250, 20000)),
     ]
